@@ -424,3 +424,50 @@ func VerifC06RecoveryFilter() {
 	verifAssert("recover-sends-nothing-else", len(st.sent) <= m)
 	verifReach("end")
 }
+
+// VerifC06GossipStore: the gossip store keeps offering the newest operation of a key until that very operation has
+// been acknowledged more than RecoveryThreshold times; feedback about an older version of the key must not stop the
+// newer one from being gossiped (otherwise a write that nobody has fetched yet is never propagated).
+func VerifC06GossipStore() {
+	ctx := context.Background()
+	st := newStore()
+	sink := &storeSink{store: st}
+	threshold := verifLen("threshold", 0, 2)
+	rt := &gossipRecoveryTransform{repetitions: make(map[string]int)}
+	rt.RecoveryThreshold = threshold
+	older, newer := verifOp("older"), verifOp("newer")
+	newer.Key = older.Key
+	verifAssume(newer.Version > older.Version && older.Version >= 0)
+	// the older write is stored and gossiped; then the key is written again
+	_ = sink.Store(ctx, TxRequest{Operations: []Operation{older}})
+	withNewer := verifBool("newer-write-happens")
+	if withNewer {
+		_ = sink.Store(ctx, TxRequest{Operations: []Operation{newer}})
+	}
+	// peers acknowledge the OLDER version r times
+	r := verifLen("feedbacks", 0, threshold+2)
+	for i := 0; i < r; i++ {
+		out, ok, err := rt.transform(ctx, Digests{older.Digest()}.toRequest(ctx))
+		verifAssume(ok && err == nil)
+		_ = sink.Store(ctx, out)
+	}
+	state, release := st.PeekState()
+	offered := state.toBatchRequest(ctx).Operations
+	release()
+	hasOlder, hasNewer := false, false
+	for _, op := range offered {
+		if op.Version == older.Version {
+			hasOlder = true
+		}
+		if op.Version == newer.Version {
+			hasNewer = true
+		}
+	}
+	if withNewer {
+		verifAssert("newer-write-still-offered", hasNewer)
+	} else {
+		// recovered only after more than threshold acknowledgements of that (key, version)
+		verifAssert("older-offered-until-acknowledged", hasOlder == (r <= threshold+1))
+	}
+	verifReach("end")
+}
